@@ -482,6 +482,16 @@ class FnTranslator:
     def assign(self, lhs, rhs_expr_str):
         while lhs["kind"] == "ParenExpr":
             lhs = kids(lhs)[0]
+        if lhs["kind"] == "UnaryOperator" and lhs.get("opcode") == "*":
+            # `*out = value`: a typed store through a pointer to an unsigned integer object
+            t = self.u.ty(lhs["type"])
+            if not t.startswith("u") or self.u.is_ptr(lhs["type"]):
+                raise Unsupported("store through a pointer to a non-unsigned-integer object")
+            pre = []
+            a = self.expr(kids(lhs)[0], pre)
+            if pre:
+                raise Unsupported("call inside the address of a store")
+            return "(.storeVal %s %d %s)" % (a, BITS[t] // 8, rhs_expr_str)
         if lhs["kind"] == "DeclRefExpr" and lhs["referencedDecl"]["id"] in self.slots:
             return "(.set %d %s)" % (self.slots[lhs["referencedDecl"]["id"]], rhs_expr_str)
         raise Unsupported("assignment to " + lhs["kind"])
